@@ -156,7 +156,7 @@ CHECKS = [
           'resolution (runs the real pure-Python idna codec first), cost accounting.',
   'design_ref': 'DESIGN.md section 4, C16'},
  {'id': 'C19',
-  'technique': 'symx bounded symbolic execution (K1) + CrossHair on JSON feature dictionaries (K2)',
+  'technique': 'symx bounded symbolic execution (K1 peer list, K3 announced ports as unbounded symbolic integers) + CrossHair on JSON feature dictionaries (K2)',
   'text': 'K1: real PeerManager.on_peers_subscribe/_get_recent_good_peers over peer sets drawn from a 30-entry '
           'hand-labelled address pool with every last_good and the clock symbolic reals, bad flags symbolic, '
           'random.shuffle a solver-chosen permutation, 0..60 onion peers, tor/non-tor: every advertised tuple is a '
@@ -164,7 +164,9 @@ CHECKS = [
           '/16-/56 bucket, onion peers capped; in two scenarios host-name peers are re-verified at another address and '
           'the request is repeated.  K2: CrossHair on Peer.peers_from_features with JSON-typed feature '
           'dictionaries: never raises, ports None or in (0, 65536), public only for routable addresses / valid host '
-          'names.',
+          'names.  K3: symx on Peer.peers_from_features -> _port/_integer with tcp_port and ssl_port unbounded symbolic '
+          'integers (or one slot a concrete non-integer JSON value): every port of the peer built is absent or in '
+          '1..65535.',
   'note': 'K1 peer sets are enumerated (13 quick / 17 thorough), values inside are solver-quantified; K2 is bounded '
           'search (not-confirmed = inconclusive).  time.time / random.shuffle are symbolic stubs.',
   'design_ref': 'DESIGN.md section 4, C19'},
